@@ -85,6 +85,12 @@ def decide_quorum(pid, tier, sd):
                                                  "searched": "arithmetic monitor over %d contexts: no hit" % r["contexts"]})
         lines.append("VIOLATION property=%s replay=%s no-failing-input-found" % (pid, path))
         violation = True
+    if not violation:   # the cached PrimaryIndex of running nodes (monitor on the node histories)
+        line, ncov = props.node_side(pid, tier, sd)
+        cov.update(ncov)
+        if line:
+            lines.append(line)
+            violation = True
     return props.finish(pid, ev, lines, violation, known_sigs, known_hits)
 
 
@@ -108,7 +114,9 @@ TLA_SPECS = {
     "centralizedCV": ("dbft2.1_centralizedCV", "dbftCentralizedCV", "TypeOK InvTwoBlocksAcceptedAdvanced InvFaultNodesCount", "", "MaxViewConstraint"),
     "multipool": ("dbftMultipool", "dbftMultipool", "TypeOK InvTwoBlocksAccepted InvFaultNodesCount", "  MaxUndeliveredMessages = 6\n", "ModelConstraint"),
 }
-FAULTS = {"good": ("{}", "{}"), "fault3": ("{3}", "{}"), "dead3": ("{}", "{3}")}
+FAULTS = {"good": ("{}", "{}"), "fault3": ("{3}", "{}"), "dead3": ("{}", "{3}"),
+          # one faulty and one other dead node: more than F = 1 together; every shipped ASSUME refuses these constants (TLC stops at once)
+          "fault3dead2": ("{3}", "{2}")}
 
 
 def _tlc(spec, fault, budget, dump=None, invariants=True, workers=4):
@@ -136,6 +144,8 @@ def _tlc(spec, fault, budget, dump=None, invariants=True, workers=4):
            "generated": int(m.group(1)) if m else 0, "distinct": int(m.group(2)) if m else 0, "violated": viol.group(1) if viol else None,
            "trace": trace, "wall_s": round(time.time() - t0, 1), "cfg": cfg, "wd": wd,
            "error": "" if (m or viol or p.returncode == 124) else out[-1500:]}
+    if re.search(r"Assumption .* is false", out):
+        res["assume_refused"], res["error"] = True, ""
     if not m:
         mm = re.findall(r"([\d,]+) states generated.*?([\d,]+) distinct states", out)
         if mm:
@@ -247,6 +257,8 @@ def decide_tla(pid, tier, sd):
                         budget = 25 if fault == "fault3" else 0   # the three large specs: a BFS prefix only
                 else:
                     budget = 900 if small else 2400
+                if fault == "fault3dead2":
+                    budget = 40 if quick else 300   # refused by the ASSUME at once; a search only if the ASSUME was weakened
                 if budget:
                     jobs.append(("inv", spec, fault, budget))
             jobs.append(("edge", spec, None, 20 if quick else 240))
@@ -267,7 +279,7 @@ def decide_tla(pid, tier, sd):
     hits = []
     for x in r["inv"]:
         if x["violated"]:
-            sig = "%s/%s/%s" % ({"CV3": "dbftCV3"}.get(x["spec"], x["spec"]), x["violated"], "RMFault" if x["fault"] == "fault3" else ("RMDead" if x["fault"] == "dead3" else "allgood"))
+            sig = "%s/%s/%s" % ({"CV3": "dbftCV3"}.get(x["spec"], x["spec"]), x["violated"], {"fault3": "RMFault", "dead3": "RMDead", "fault3dead2": "RMFault+RMDead"}.get(x["fault"], "allgood"))
             hits.append({"prop": pid, "sig": sig, "desc": "TLC: %s violated in %s with %s" % (x["violated"], x["spec"], x["fault"]), "trace": x["trace"][:6000], "cfg": x["cfg"]})
     known_sigs, known_hits, new_hits = props.classify_hits(pid, hits)
     bad_edges = [e for e in r["edge"] if not e.get("ok")]
@@ -279,7 +291,7 @@ def decide_tla(pid, tier, sd):
         "states": states, "transitions": sum(x["generated"] for x in r["inv"]), "traces_validated_against_impl": sum(e.get("edges", 0) for e in r["edge"]),
         "evaluations": states, "distinct_nontrivial": states,
         "rule": "states = distinct states TLC explored on the shipped constants (RM={0..3}, MaxView=1) for each spec x {all good, RMFault={3}, RMDead={3}} within the tier's time budget; edge check = TLC-dumped transitions (RMFault={3}) that the generated Coq next-state checker must accept",
-        "samples": [{"spec": x["spec"], "fault": x["fault"], "distinct_states": x["distinct"], "complete": x["complete"], "violated": x["violated"], "wall_s": x["wall_s"]} for x in r["inv"]],
+        "samples": [{"spec": x["spec"], "fault": x["fault"], "distinct_states": x["distinct"], "complete": x["complete"], "violated": x["violated"], "refused_by_ASSUME": bool(x.get("assume_refused")), "wall_s": x["wall_s"]} for x in r["inv"]],
         "edge_check": r["edge"], "cache_reused": r.get("_cache_reused", False),
         "explanation": "proved for every RM (any N), unbounded views, |RMFault| <= F on the models regenerated from the .tla files: InvTwoBlocksAccepted of dbft.tla and dbft_antiMEV/dbft.tla; dbftCV3 refuted by a checked witness (known finding); TypeOK / InvFaultNodesCount and the two larger specs are covered by TLC on the shipped constants only (DESIGN.md C20)",
     })
@@ -538,6 +550,12 @@ def decide_sim(pid, tier, sd):
                                              "searched": "ran the real simulation binary: %s; with a blocked validator: %s" % (json.dumps(r["runs"])[:1200], json.dumps(extra)[:400])})
             lines.append("VIOLATION property=%s replay=%s no-failing-input-found" % (pid, path))
         violation = True
+    if not violation:   # what Reset - the call the example makes after every block - does to the payloads kept for the next height
+        line, ncov = props.node_side(pid, tier, sd)
+        cov.update(ncov)
+        if line:
+            lines.append(line)
+            violation = True
     return props.finish(pid, ev, lines, violation, known_sigs, known_hits)
 
 
